@@ -421,6 +421,7 @@ class Explorer:
         self.solver_s = 0.0
         self.paths_cut = 0
         self.truncated = False
+        self.deadline = None        # wall-clock limit for starting new paths (set by the harness)
         self._fresh = 0
 
     # -- called from proxies ---------------------------------------------
@@ -520,7 +521,7 @@ class Explorer:
         _CURRENT.append(self)
         try:
             while self._work:
-                if len(paths) >= self.max_paths:
+                if len(paths) >= self.max_paths or (self.deadline and time.time() > self.deadline):
                     self.truncated = True
                     break
                 self._sched = self._work.pop()
